@@ -49,12 +49,12 @@ func C17(c *Ctx) {
 		chain = 64
 	}
 	configs := []string{"ForPost", "ForCondProbe", "While", "Infinite", "Continue", "ContinueWhile", "RangeInt", "RangeSlice", "Switch", "Nested", "Filter",
-		"NestedCondInner", "NestedEndlessInner", "ThreeLevels",
+		"NestedCondInner", "NestedEndlessInner", "ThreeLevels", "FlatMap", "ManualPull", "RangeOtherInBody",
 		"rawFor", "rawWhileContinue", "rawLoopBreak", "rawCombineInLoop", "rawSharedInner"}
 	// configurations that also exist in the variant "yield at the first iteration as well": the long
 	// non-yielding stretch then comes AFTER a yield of the same loop run
 	withFirst := map[string]bool{"ForPost": true, "ForCondProbe": true, "While": true, "Infinite": true, "Continue": true, "ContinueWhile": true, "RangeInt": true,
-		"RangeSlice": true, "Switch": true, "Nested": true, "Filter": true, "NestedCondInner": true, "NestedEndlessInner": true, "ThreeLevels": true, "rawSharedInner": true}
+		"RangeSlice": true, "Switch": true, "Nested": true, "Filter": true, "NestedCondInner": true, "NestedEndlessInner": true, "ThreeLevels": true, "rawSharedInner": true, "FlatMap": true, "ManualPull": true, "RangeOtherInBody": true}
 	type result struct {
 		Config string         `json:"config"`
 		N      int            `json:"n"`
@@ -178,7 +178,7 @@ func C17(c *Ctx) {
 	c.Rep.Set("iterations_between_yields", n)
 	c.Rep.Set("delegation_depth", chain)
 	c.Rep.Set("growth_bound_frames", maxGrowth)
-	c.Rep.Rule = "19 loop configurations (compiled for/while/infinite/continue/range-int/range-slice/switch/nested (inner three-clause, inner condition-only and endless loops without init that contain the yield, three levels)/filter-over-source generators produced by the real compiler, and raw seq.For/While/Loop/Combine terms incl. one inner loop VALUE re-run by an outer loop) whose body yields only on the last of n iterations, each also in the variant that yields at the first iteration too (the non-yielding stretch then follows a yield of the same loop run); runtime.Callers depth sampled inside the loop body/condition at iterations 2,10,100,...,n; oracle: depth(i>=10) - depth(10) <= 16 frames; delegation chains d=1..D: per-level increment constant (+4). One child process per configuration (a stack overflow is fatal). distinct = configuration x sampled iteration index."
+	c.Rep.Rule = "22 loop configurations (loop bodies that advance ANOTHER generator during the non-yielding stretch: flat-map over mostly empty sub-generators, manual pull, range over another generator; compiled for/while/infinite/continue/range-int/range-slice/switch/nested (inner three-clause, inner condition-only and endless loops without init that contain the yield, three levels)/filter-over-source generators produced by the real compiler, and raw seq.For/While/Loop/Combine terms incl. one inner loop VALUE re-run by an outer loop) whose body yields only on the last of n iterations, each also in the variant that yields at the first iteration too (the non-yielding stretch then follows a yield of the same loop run); runtime.Callers depth sampled inside the loop body/condition at iterations 2,10,100,...,n; oracle: depth(i>=10) - depth(10) <= 16 frames; delegation chains d=1..D: per-level increment constant (+4). One child process per configuration (a stack overflow is fatal). distinct = configuration x sampled iteration index."
 	c.Rep.Assumptions = append(c.Rep.Assumptions,
 		"the unbounded 'for all n' is restated as bounded growth up to the stated n; a finite run cannot decide more",
 		"growth, not absolute depth, is judged, so refactorings that add a constant number of frames pass")
